@@ -177,8 +177,106 @@ def k_window_init():
             f'Definition dstream_time_init : Z := {int(t.value.value)}.\n')
 
 
+def _is_call_stmt(s, obj_attr, meth):
+    return (isinstance(s, ast.Expr) and isinstance(s.value, ast.Call) and isinstance(s.value.func, ast.Attribute)
+            and s.value.func.attr == meth and _is_self_attr(s.value.func.value, obj_attr))
+
+
+def _is_prev_rdd(e):
+    return isinstance(e, ast.Attribute) and e.attr == '_current_rdd' and _is_self_attr(e.value, '_prev')
+
+
+def k_other_orders():
+    """Order of the effects of TransformedDStream._step and StatefulDStream._step, as constants the proofs check.
+    Transformed: 0 guard, 1 step parent, 2 set _current_time, 3 _current_rdd = self._func(time_, parent rdd).
+    Stateful:    0 guard, 1 step parent, 2 set _current_time, 3 combined = parent rdd .cogroup(self._state_rdd),
+                 4 self._state_rdd = combined.mapValues(self.convert_fn), 5 self._current_rdd = self._state_rdd;
+    and convert_fn takes the LAST element of the state list, None when it is empty."""
+    def time_set(s):
+        return (isinstance(s, ast.Assign) and len(s.targets) == 1 and _is_self_attr(s.targets[0], '_current_time')
+                and isinstance(s.value, ast.Name) and s.value.id == 'time_')
+
+    def parent_step(s):
+        return (_is_call_stmt(s, '_prev', '_step') and len(s.value.args) == 1
+                and isinstance(s.value.args[0], ast.Name) and s.value.args[0].id == 'time_')
+
+    # Transformed
+    f, _ = _guard_of('TransformedDStream._step')
+    order = [0]
+    for st in _body(f)[1:]:
+        if parent_step(st):
+            order.append(1)
+        elif time_set(st):
+            order.append(2)
+        elif (isinstance(st, ast.Assign) and len(st.targets) == 1 and _is_self_attr(st.targets[0], '_current_rdd')
+              and isinstance(st.value, ast.Call) and _is_self_attr(st.value.func, '_func') and len(st.value.args) == 2
+              and isinstance(st.value.args[0], ast.Name) and st.value.args[0].id == 'time_'
+              and _is_prev_rdd(st.value.args[1]) and not st.value.keywords):
+            order.append(3)
+        else:
+            raise Unsupported(f'TransformedDStream._step: unexpected statement {ast.dump(st)[:90]}')
+    if sorted(order) != [0, 1, 2, 3]:
+        raise Unsupported(f'TransformedDStream._step: effects found {order}')
+    out = 'Definition tr_step_order : list Z := [' + '; '.join(map(str, order)) + '].\n'
+    # Stateful
+    f, _ = _guard_of('StatefulDStream._step')
+    order = [0]
+    for st in _body(f)[1:]:
+        if parent_step(st):
+            order.append(1)
+        elif time_set(st):
+            order.append(2)
+        elif (isinstance(st, ast.Assign) and len(st.targets) == 1 and isinstance(st.targets[0], ast.Name)
+              and st.targets[0].id == 'combined' and isinstance(st.value, ast.Call)
+              and isinstance(st.value.func, ast.Attribute) and st.value.func.attr == 'cogroup'
+              and _is_prev_rdd(st.value.func.value) and len(st.value.args) == 1
+              and _is_self_attr(st.value.args[0], '_state_rdd') and not st.value.keywords):
+            order.append(3)
+        elif (isinstance(st, ast.Assign) and len(st.targets) == 1 and _is_self_attr(st.targets[0], '_state_rdd')
+              and isinstance(st.value, ast.Call) and isinstance(st.value.func, ast.Attribute)
+              and st.value.func.attr == 'mapValues' and isinstance(st.value.func.value, ast.Name)
+              and st.value.func.value.id == 'combined' and len(st.value.args) == 1
+              and _is_self_attr(st.value.args[0], 'convert_fn')):
+            order.append(4)
+        elif (isinstance(st, ast.Assign) and len(st.targets) == 1 and _is_self_attr(st.targets[0], '_current_rdd')
+              and _is_self_attr(st.value, '_state_rdd')):
+            order.append(5)
+        else:
+            raise Unsupported(f'StatefulDStream._step: unexpected statement {ast.dump(st)[:90]}')
+    if sorted(order) != [0, 1, 2, 3, 4, 5]:
+        raise Unsupported(f'StatefulDStream._step: effects found {order}')
+    out += 'Definition st_step_order : list Z := [' + '; '.join(map(str, order)) + '].\n'
+    # convert_fn: `input_values, state_list = joined; state = state_list[-1] if state_list else None;
+    #              return self._func(input_values, state)`
+    c = find_function(tree(SRC), 'StatefulDStream.convert_fn')
+    body = _body(c)
+    ok = (len(body) == 3
+          and isinstance(body[0], ast.Assign) and isinstance(body[0].targets[0], ast.Tuple)
+          and [getattr(e, 'id', None) for e in body[0].targets[0].elts] == ['input_values', 'state_list']
+          and isinstance(body[0].value, ast.Name) and body[0].value.id == 'joined'
+          and isinstance(body[1], ast.Assign) and getattr(body[1].targets[0], 'id', None) == 'state'
+          and isinstance(body[1].value, ast.IfExp)
+          and isinstance(body[1].value.test, ast.Name) and body[1].value.test.id == 'state_list'
+          and isinstance(body[1].value.orelse, ast.Constant) and body[1].value.orelse.value is None
+          and isinstance(body[1].value.body, ast.Subscript)
+          and isinstance(body[1].value.body.value, ast.Name) and body[1].value.body.value.id == 'state_list'
+          and isinstance(body[1].value.body.slice, ast.UnaryOp) and isinstance(body[1].value.body.slice.op, ast.USub)
+          and isinstance(body[1].value.body.slice.operand, ast.Constant)
+          and isinstance(body[2], ast.Return) and isinstance(body[2].value, ast.Call)
+          and _is_self_attr(body[2].value.func, '_func')
+          and [getattr(a, 'id', None) for a in body[2].value.args] == ['input_values', 'state'])
+    if not ok:
+        raise Unsupported('StatefulDStream.convert_fn is not `state = state_list[-k] if state_list else None; '
+                          'return self._func(input_values, state)`')
+    idx = body[1].value.body.slice.operand.value
+    out += f'(* convert_fn passes state_list[-{idx}] (None when the list is empty) *)\n'
+    out += f'Definition st_state_index_from_end : Z := {int(idx)}.\n'
+    return out
+
+
 FILES = [
     ('Window.v', SRC, HEADER_Z, [('window_step', k_window), ('window_init', k_window_init),
                                  ('win_guard', k_win_guard), ('st_guard', k_st_guard),
-                                 ('tr_guard', k_tr_guard), ('src_guard', k_src_guard)]),
+                                 ('tr_guard', k_tr_guard), ('src_guard', k_src_guard),
+                                 ('other_orders', k_other_orders)]),
 ]
